@@ -1,10 +1,14 @@
 """C04 — transform is exactly the mapping described by the fitted values_orders."""
-from harness import k_qualitative, k_transform, o_labels
+from harness import C17, k_qualitative, k_string, k_transform, o_labels
 
 
 def obligations(tier):
-    return [
+    rebuilt = C17.obligations(tier, prefix="O4.5")  # manually edited objects and objects rebuilt from JSON map rows like the original
+    for ob in rebuilt:
+        ob.twin_every = 1
+    return rebuilt + [
         k_transform.obligation(tier, {"C04"}, "O4.1a quantitative: label = first group whose upper bound >= value; float labels are group ranks; NaN rows per dropna"),
+        k_string.obligation(tier, "O4.3 numeric-looking qualitative values are matched through their string form (int -> str(int), integer-valued float -> str(int), others str(v)); a pre-existing equal string shares the group"),
         k_qualitative.obligation(tier, {"C04"}, "O4.1b qualitative: every known member (incl. numeric-valued ones) maps to its group's label"),
     ]
 
